@@ -30,14 +30,14 @@ theorem storeAt_cons2 (rd : Nat → Nat) (w b0 b1 : Nat) (rest : List Nat) :
 theorem take_succ_succ {α : Type} (a b : α) (l : List α) (n : Nat) :
     (a :: b :: l).take (n + 2) = a :: b :: l.take n := by simp [List.take]
 
-/-- The write loop on a word-aligned window below 64 KiB: it stores `k = min ⌈len/2⌉ (room/2)` words taken
-    from the (zero-padded) buffer at consecutive word addresses, reports `2k` bytes, advances by `2k`, makes
-    `k` provider calls, and never panics. -/
+/-- The write loop on a word-aligned window inside the address space: it stores `k = min ⌈len/2⌉ (room/2)` words
+    taken from the (zero-padded) buffer at consecutive word addresses, reports the `min len (2k)` buffer bytes
+    it consumed, advances by `2k`, makes `k` provider calls, and never panics. -/
 theorem writeLoop_spec (m : Mode) :
     ∀ (fuel : Nat) (d : Dev) (r : Range) (buf : List Nat) (written : Nat),
-      buf.length < fuel → r.pos % 2 = 0 → r.endp % 2 = 0 → r.pos ≤ r.endp → r.endp < 65536 →
+      buf.length < fuel → r.pos % 2 = 0 → r.endp % 2 = 0 → r.pos ≤ r.endp → r.endp ≤ 131072 →
       writeLoop m fuel d r buf written =
-        ((.ok (written + 2 * min ((buf.length + 1) / 2) ((r.endp - r.pos) / 2),
+        ((.ok (written + min buf.length (2 * min ((buf.length + 1) / 2) ((r.endp - r.pos) / 2)),
               { r with pos := r.pos + 2 * min ((buf.length + 1) / 2) ((r.endp - r.pos) / 2) }),
           min ((buf.length + 1) / 2) ((r.endp - r.pos) / 2)),
          { d with
@@ -59,12 +59,10 @@ theorem writeLoop_spec (m : Mode) :
       | [], _ => simp [liftW, ret, storeAt_nil, wordsAt, padEven]
       | [b0], hf1 =>
         have hk : min (([b0].length + 1) / 2) ((r.endp - r.pos) / 2) = 1 := by simp; omega
-        rw [hk]
-        simp only [bindW, writeWord, call, liftW]
-        rw [add16_ok _ _ _ _ (by omega)]
-        simp only [ret]
+        rw [hk, wordPos_ok r.pos (by omega)]
+        simp only [bindW, writeWord, call, liftW, ret]
         have hrec := ih { d with rd := wrMem d.rd (r.pos / 2) b0 0, log := d.log ++ [(r.pos / 2, b0, 0)] }
-          { r with pos := r.pos + 2 } [] (written + 2) (by simp at hf1 ⊢; omega) (by simp; omega) he (by simp; omega) hlt
+          { r with pos := r.pos + 2 } [] (written + 1) (by simp at hf1 ⊢; omega) (by simp; omega) he (by simp; omega) hlt
         simp only [List.length_nil, Nat.zero_add, Nat.reduceDiv, Nat.zero_min, Nat.mul_zero, Nat.add_zero,
           List.take_zero, storeAt_nil, wordsAt, List.append_nil] at hrec
         rw [hrec]
@@ -75,9 +73,8 @@ theorem writeLoop_spec (m : Mode) :
         rw [storeAt_nil, hpos] at hs
         simp [hs]
       | b0 :: b1 :: rest, hf' =>
-        simp only [bindW, writeWord, call, liftW]
-        rw [add16_ok _ _ _ _ (by omega)]
-        simp only [ret]
+        rw [wordPos_ok r.pos (by omega)]
+        simp only [bindW, writeWord, call, liftW, ret]
         have hrec := ih { d with rd := wrMem d.rd (r.pos / 2) b0 b1, log := d.log ++ [(r.pos / 2, b0, b1)] }
           { r with pos := r.pos + 2 } rest (written + 2) (by simp at hf'; omega) (by simp; omega) he
           (by simp; omega) hlt
@@ -102,11 +99,12 @@ theorem writeLoop_spec (m : Mode) :
         simp [hs, Nat.add_assoc]
         omega
 
-/-- `Range.write` is the loop with enough fuel. -/
+/-- `Range.write` when the range is not exhausted (or there is nothing to write) is the loop with enough fuel. -/
 theorem write_spec (m : Mode) (d : Dev) (r : Range) (buf : List Nat)
-    (hp : r.pos % 2 = 0) (he : r.endp % 2 = 0) (hle : r.pos ≤ r.endp) (hlt : r.endp < 65536) :
+    (hp : r.pos % 2 = 0) (he : r.endp % 2 = 0) (hle : r.pos ≤ r.endp) (hlt : r.endp ≤ 131072)
+    (hroom : buf.length = 0 ∨ r.pos < r.endp) :
     Range.write m d r buf =
-      ((.ok (2 * min ((buf.length + 1) / 2) ((r.endp - r.pos) / 2),
+      ((.ok (min buf.length (2 * min ((buf.length + 1) / 2) ((r.endp - r.pos) / 2)),
             { r with pos := r.pos + 2 * min ((buf.length + 1) / 2) ((r.endp - r.pos) / 2) }),
         min ((buf.length + 1) / 2) ((r.endp - r.pos) / 2)),
        { d with
@@ -114,33 +112,83 @@ theorem write_spec (m : Mode) (d : Dev) (r : Range) (buf : List Nat)
           log := d.log ++ wordsAt (r.pos / 2)
             ((padEven buf).take (2 * min ((buf.length + 1) / 2) ((r.endp - r.pos) / 2))) }) := by
   unfold Range.write
+  rw [if_neg (by omega)]
   rw [writeLoop_spec m _ d r buf 0 (by omega) hp he hle hlt]
   simp
 
-/-- `write_all` of an even number of bytes that fit the window: one `write` call stores all of them. -/
-theorem writeAll_even (m : Mode) (d : Dev) (r : Range) (buf : List Nat)
-    (hp : r.pos % 2 = 0) (he : r.endp % 2 = 0) (hlt : r.endp < 65536)
-    (hlen : buf.length % 2 = 0) (hfit : r.pos + buf.length ≤ r.endp) :
+/-- A non-empty buffer on an exhausted range: `Err(SectionOverrun)`, nothing written. -/
+theorem write_overrun (m : Mode) (d : Dev) (r : Range) (buf : List Nat) (hne : buf.length ≠ 0)
+    (hfull : r.endp - r.pos = 0) : Range.write m d r buf = ((.err .overrun, 0), d) := by
+  unfold Range.write
+  rw [if_pos ⟨hne, hfull⟩]
+  rfl
+
+theorem padEven_length (buf : List Nat) : (padEven buf).length = 2 * ((buf.length + 1) / 2) := by
+  unfold padEven; split
+  · simp; omega
+  · omega
+
+/-- **`write_all`, payload fits** (any length, odd or even): one `write` call stores the zero-padded payload and
+    `Ok(())` is returned. -/
+theorem writeAll_fits (m : Mode) (d : Dev) (r : Range) (buf : List Nat)
+    (hp : r.pos % 2 = 0) (he : r.endp % 2 = 0) (hlt : r.endp ≤ 131072)
+    (hfit : r.pos + 2 * ((buf.length + 1) / 2) ≤ r.endp) :
     Range.writeAll m d r buf =
-      ((.ok { r with pos := r.pos + buf.length }, buf.length / 2),
-       { d with rd := storeAt d.rd r.pos buf, log := d.log ++ wordsAt (r.pos / 2) buf }) := by
+      ((.ok { r with pos := r.pos + 2 * ((buf.length + 1) / 2) }, (buf.length + 1) / 2),
+       { d with rd := storeAt d.rd r.pos (padEven buf), log := d.log ++ wordsAt (r.pos / 2) (padEven buf) }) := by
   unfold Range.writeAll
   by_cases h0 : buf.length = 0
   · have : buf = [] := List.eq_nil_of_length_eq_zero h0
     subst this
-    simp [writeAllLoop, liftW, ret, storeAt_nil, wordsAt]
+    simp [writeAllLoop, liftW, ret, storeAt_nil, wordsAt, padEven]
   · obtain ⟨f, hf⟩ : ∃ f, buf.length + 1 = f + 2 := ⟨buf.length - 1, by omega⟩
     rw [hf]
     unfold writeAllLoop
-    rw [if_neg h0, write_spec m d r buf hp he (by omega) hlt]
-    have hk : min ((buf.length + 1) / 2) ((r.endp - r.pos) / 2) = buf.length / 2 := by omega
-    have h2k : 2 * (buf.length / 2) = buf.length := by omega
-    have hpad : padEven buf = buf := by unfold padEven; rw [if_neg (by omega)]
-    rw [hk, h2k, hpad, List.take_length]
+    rw [if_neg h0, write_spec m d r buf hp he (by omega) hlt (Or.inr (by omega))]
+    have hk : min ((buf.length + 1) / 2) ((r.endp - r.pos) / 2) = (buf.length + 1) / 2 := by omega
+    have hmin : min buf.length (2 * ((buf.length + 1) / 2)) = buf.length := by omega
+    rw [hk, hmin]
+    have htake : (padEven buf).take (2 * ((buf.length + 1) / 2)) = padEven buf := by
+      rw [← padEven_length, List.take_length]
+    rw [htake]
     simp only [bindW]
     rw [if_neg h0, if_neg (by omega), List.drop_length]
     unfold writeAllLoop
     simp [liftW, ret]
+    omega
+
+/-- **`write_all`, payload longer than the window**: the words that fit are stored, then the call returns
+    `Err(SectionOverrun)` — no panic, nothing outside the window touched. -/
+theorem writeAll_overrun (m : Mode) (d : Dev) (r : Range) (buf : List Nat)
+    (hp : r.pos % 2 = 0) (he : r.endp % 2 = 0) (hle : r.pos ≤ r.endp) (hlt : r.endp ≤ 131072)
+    (hnofit : r.endp < r.pos + 2 * ((buf.length + 1) / 2)) :
+    (Range.writeAll m d r buf).1.1 = .err .overrun ∧
+    (Range.writeAll m d r buf).2 =
+      { d with rd := storeAt d.rd r.pos ((padEven buf).take (r.endp - r.pos)),
+               log := d.log ++ wordsAt (r.pos / 2) ((padEven buf).take (r.endp - r.pos)) } := by
+  unfold Range.writeAll
+  have h0 : buf.length ≠ 0 := by omega
+  obtain ⟨f, hf⟩ : ∃ f, buf.length + 1 = f + 2 := ⟨buf.length - 1, by omega⟩
+  rw [hf]
+  unfold writeAllLoop
+  rw [if_neg h0]
+  by_cases hroom : r.endp - r.pos = 0
+  · rw [write_overrun m d r buf h0 hroom]
+    simp only [bindW, hroom, List.take_zero, storeAt_nil, wordsAt, List.append_nil]
+    exact ⟨trivial, trivial⟩
+  · rw [write_spec m d r buf hp he hle hlt (Or.inr (by omega))]
+    have hk : min ((buf.length + 1) / 2) ((r.endp - r.pos) / 2) = (r.endp - r.pos) / 2 := by omega
+    have h2k : 2 * ((r.endp - r.pos) / 2) = r.endp - r.pos := by omega
+    have hmin : min buf.length (r.endp - r.pos) = r.endp - r.pos := by omega
+    rw [hk, h2k, hmin]
+    simp only [bindW]
+    rw [if_neg hroom, if_neg (by omega)]
+    obtain ⟨g, hg⟩ : ∃ g, f = g + 1 := ⟨f - 1, by omega⟩
+    rw [hg]
+    unfold writeAllLoop
+    rw [if_neg (by simp only [List.length_drop]; omega)]
+    rw [write_overrun m _ _ _ (by simp only [List.length_drop]; omega) (by simp only; omega)]
+    exact ⟨rfl, rfl⟩
 
 /-! ### `DeviceEeprom::write_word` retry loop -/
 
